@@ -206,7 +206,40 @@ def early_exit(src, relpath):
         yield ("earlyexit:%s" % relpath, relpath, ast.unparse(ast.fix_missing_locations(tree)))
 
 
-GENERATORS = [alpha_rename, commute, alias_temps, swap_independent, early_exit]
+def insert_noise(src, relpath):
+    """Insert a harmless diagnostic statement at the start of every function body and loop body."""
+    tree = ast.parse(src)
+    n_ins = [0]
+
+    def noise():
+        n_ins[0] += 1
+        return ast.parse("print('debug', file=sys.stderr) if False else None").body[0]
+
+    for n in ast.walk(tree):
+        if isinstance(n, (ast.For, ast.While)):
+            n.body.insert(0, noise())
+        elif isinstance(n, (ast.FunctionDef,)):
+            k = 1 if (n.body and isinstance(n.body[0], ast.Expr) and isinstance(n.body[0].value, ast.Constant) and isinstance(n.body[0].value.value, str)) else 0
+            n.body.insert(k, noise())
+    if n_ins[0]:
+        yield ("noise:%s" % relpath, relpath, ast.unparse(ast.fix_missing_locations(tree)))
+
+
+def reverse_elif(src, relpath):
+    """Swap the two branches of a plain if/else by negating the test: if c: A else: B -> if not c: B else: A."""
+    tree = ast.parse(src)
+    n_ch = [0]
+    for n in ast.walk(tree):
+        if isinstance(n, ast.If) and n.orelse and not (len(n.orelse) == 1 and isinstance(n.orelse[0], ast.If)):
+            # skip if this If is itself the elif arm of a chain
+            n.test = ast.UnaryOp(op=ast.Not(), operand=n.test)
+            n.body, n.orelse = n.orelse, n.body
+            n_ch[0] += 1
+    if n_ch[0]:
+        yield ("negate-if:%s" % relpath, relpath, ast.unparse(ast.fix_missing_locations(tree)))
+
+
+GENERATORS = [alpha_rename, commute, alias_temps, swap_independent, early_exit, insert_noise, reverse_elif]
 
 
 def all_benign(root):
